@@ -4436,6 +4436,8 @@ void SymbolDatabase::printXml(std::ostream &out) const
     std::string outs;
 
     std::set<const Variable *> variables;
+    // dump order must not depend on pointer values: remember the order of first insertion
+    std::vector<const Variable *> variablesInOrder;
 
     // Scopes..
     outs += "  <scopes>\n";
@@ -4543,7 +4545,8 @@ void SymbolDatabase::printXml(std::ostream &out) const
                             outs += "\" variable=\"";
                             outs += id_string(arg);
                             outs += "\"/>\n";
-                            variables.insert(arg);
+                            if (variables.insert(arg).second)
+                                variablesInOrder.push_back(arg);
                         }
                         outs += "        </function>\n";
                     }
@@ -4602,10 +4605,12 @@ void SymbolDatabase::printXml(std::ostream &out) const
     }
 
     // Variables..
-    for (const Variable *var : mVariableList)
-        variables.insert(var);
+    for (const Variable *var : mVariableList) {
+        if (variables.insert(var).second)
+            variablesInOrder.push_back(var);
+    }
     outs += "  <variables>\n";
-    for (const Variable *var : variables) {
+    for (const Variable *var : variablesInOrder) {
         if (!var)
             continue;
         outs += "    <var id=\"";
